@@ -7,6 +7,10 @@ def _c03_project(op, line):
     # family codec: C03 observes what a resend transmits — bodyBytes of a parsed message (`B <hex>` of a parse observation) and
     # the message rebuilt from them (`rebuild`); everything else of that family belongs to C10/C11/C13
     k = op.split(" ")[0]
+    if k in ("round", "srcfacts"):
+        # family conc (stress rounds on the real run loop): C03 takes only the monitor's clause "a first-time message is written
+        # between the replayed messages of one ResendRequest answer" (the reply is ONE run); the rest of a round is C02's
+        return ""
     if k in _C03_CODEC_OPS:
         w = line.split(" ")
         if k == "parse":
@@ -17,8 +21,9 @@ def _c03_project(op, line):
     return PROJ["C03"](op, line)
 
 PROPS["C03"] = {
-    "families": {"sess": {"quick": 250, "thorough": 6000}, "codec": {"quick": 6000, "thorough": 60000}},
-    "mon_clauses": ["C03.", "C09.panic", "c03_rebuild"],
+    "families": {"sess": {"quick": 250, "thorough": 6000}, "codec": {"quick": 6000, "thorough": 60000},
+                 "conc": {"quick": 150, "thorough": 1500}},
+    "mon_clauses": ["C03.", "C09.panic", "c03_rebuild", "C02.replay_exclusive"],
     "project": _c03_project,
     "claim": 'ResendRequest replies: contiguous PossDup cover from BeginSeqNo to min(EndSeqNo,last)+1, gap fills only over administrative / refused numbers, replays equal to what was stored; range logic of the model proved in Props/C03.lean; the byte layer of a replay — bodyBytes of a stored message as parsed (with no / application / transport+application dictionaries, incl. repeating groups at any depth) and the message rebuilt from them: well-formed (`c03_rebuild_wf`) and with a body byte-identical to the one parsed (`c03_rebuild_body`) — is checked by the codec family against the Lean codec model (correspondence on `parse … B <hex>` and `rebuild`) and these two monitor clauses.',
     "note": 'Lean kernel + propext/Classical.choice/Quot.sound; the session model (Qfx/Model/Session.lean, ~600 lines mirroring session.go, session_state.go, in_session.go, resend_state.go, logon_state.go, logout_state.go, pending_timeout.go) is tied to the code by driving a real session built by the real factory synchronously on generated event histories and comparing, per event, callbacks, wire writes, store mutations, timer arms, counters and state; inbound bytes are built by the harness from the same field list the model reads; not modelled: store I/O errors; the session runs with the validator the factory builds (five settings; data dictionaries written by the harness in two cases of five)',
